@@ -22,6 +22,10 @@ fn root_is_nullish(t: &Ty, v: &DV) -> bool {
 }
 
 fn check_case(c: &Case) -> Outcome {
+    if ds::has_colliding_keys(&c.val) {
+        // (not a document of the domain: two keys that are one key node for the reader)
+        return Outcome::Discard("colliding-keys");
+    }
     let text = match serde_saphyr::to_string_with_options(&S(&c.ty, &c.val), c.opts.build()) {
         Ok(t) => t,
         Err(e) => return Outcome::Fail(format!("serialization failed: {e}")),
